@@ -125,11 +125,16 @@ func scanCmd(a []string) string {
 		top := "m"
 		if info, err := os.Stat(abs); err == nil {
 			if info.IsDir() {
-				walkable := "1"
+				// a selected link to a directory stands for that directory: what lies beneath it is what lies beneath its target
+				// (physical path for the model's table look-up; the manifest name stays the link's)
 				if li, e := os.Lstat(abs); e == nil && li.Mode()&fs.ModeSymlink != 0 {
-					walkable = "0"
+					if resolved, e2 := filepath.EvalSymlinks(abs); e2 == nil {
+						if r2, e3 := filepath.Rel(root, resolved); e3 == nil {
+							rel = r2
+						}
+					}
 				}
-				top = fmt.Sprintf("d:%d:%s", info.ModTime().Unix(), walkable)
+				top = fmt.Sprintf("d:%d:1", info.ModTime().Unix())
 			} else {
 				top = fmt.Sprintf("f:%d:%d", info.Size(), info.ModTime().Unix())
 			}
@@ -189,6 +194,40 @@ func scanCmd(a []string) string {
 			} else if int64(len(b)) != it.Size {
 				problems = append(problems, fmt.Sprintf("size of %s listed %d readable %d", it.RelPath, it.Size, len(b)))
 			}
+		}
+	}
+	// completeness, without the model: every plain file and directory beneath a selected path (a selected link to a directory stands
+	// for that directory; links inside a tree are not followed) is what some manifest entry resolves to
+	if rerr == nil && err1 == nil {
+		reached := map[string]bool{}
+		for _, it := range m1.Items {
+			if rp := resolver(it.RelPath); rp != "" {
+				if phys, e := filepath.EvalSymlinks(rp); e == nil {
+					reached[phys] = true
+				}
+			}
+		}
+		for _, p := range paths {
+			abs, _ := filepath.Abs(p)
+			info, e := os.Stat(abs)
+			if e != nil || !info.IsDir() {
+				continue
+			}
+			walkRoot, e := filepath.EvalSymlinks(abs)
+			if e != nil {
+				continue
+			}
+			filepath.WalkDir(walkRoot, func(q string, d fs.DirEntry, err error) error {
+				if err != nil || q == walkRoot {
+					return nil
+				}
+				if (d.IsDir() || d.Type().IsRegular()) && !reached[q] {
+					rel, _ := filepath.Rel(walkRoot, q)
+					problems = append(problems, fmt.Sprintf("unlisted %s beneath the selected path %s is in no manifest entry", rel, p))
+					return fs.SkipAll
+				}
+				return nil
+			})
 		}
 	}
 	if fc != m1.FileCount || dc != m1.FolderCount || tb != m1.TotalBytes {
